@@ -494,7 +494,7 @@ def extra_carriers(ctx, rec):
     """C15: the same abstract call under every data / auxiliary / time carrier; the first (f64, datetime64[ns])
     execution is the session's base call, every other carrier is a 'recall' of it."""
     g = gen_qc.Gen(ctx.seed + 29, size=ctx.pick(8, 14))
-    per_fn = ctx.pick(6, 150)
+    per_fn = ctx.pick(8, 150)
     uses_time = {"roc", "flat", "att", "speed", "clim"}
     uses_aux = {"dens", "loc", "speed", "clim"}
     for fn in ALL_FNS:
@@ -529,8 +529,10 @@ def extra_carriers(ctx, rec):
             if fn == "clim":
                 variants += [{"tspanc": "iso"}, {"tspanc": "dt64"}, {"climc": "object"}]
             if ctx.quick:
-                ctx.rng.shuffle(variants)
-                variants = variants[:10] + [v for v in variants[10:] if "via" in v]
+                # a window of 12 variants that moves on with every repetition: every variant of every test is visited
+                # (twice or more for most), independently of any random state
+                w = [variants[(rep * 12 + j) % len(variants)] for j in range(min(12, len(variants)))]
+                variants = w + [v for v in variants if "via" in v and v not in w]
             for v in variants:
                 label = ",".join("%s=%s" % kv for kv in sorted(v.items()))
                 steps.append(({"kind": "recall", "i": 0, "k": 0}, json.loads(json.dumps(c)),
